@@ -16,7 +16,7 @@ TECHNIQUE = "runtime monitor with fault injection: exhaustive single (and sample
 RULE = ("program p = i // 16 (4-12 executed events, float/int/Duration clocks); variants 0-11 inject a fault into the "
         "v-th executed event (all singles), variants 12-15 inject pairs / random subsets; the raise position inside "
         "the handler's action list varies (before / between / after its scheduling actions); strategy in {log, warn, "
-        "pause} x driver in {start, bounded, step, mixed}; non-trivial = at least one injected fault was reached and "
+        "pause} (set plain or with an explicit log level, switched by handlers, incl. refused switches to non-existent strategies) x driver in {start, bounded, step, mixed}; non-trivial = at least one injected fault was reached and "
         "events were still pending when it fired; distinct = canonical (program, fault set, strategy, driver) hash")
 ASSUMPTIONS = ["WARN_AND_END / WARN_AND_EXIT are outside the statement",
                "a failing handler raises RuntimeError, KeyError, a BaseException subclass that is not an Exception, or SystemExit",
@@ -63,7 +63,7 @@ def gen_case(rng, tier, i):
     switches = []
     if v >= 8 and order:
         for t in rng.sample(order, min(len(order), rng.randint(1, 2))):
-            switches.append([t, rng.choice(["log", "warn", "pause"])])
+            switches.append([t, rng.choice(["log", "warn", "pause", "bad:zero", "bad:name", "bad:none", "bad:big", "bad:neg"])])
     cuts = sorted(rng.sample(range(0, 60), 3))
     return {"prog": prog, "faults": fl, "strategy": strategy, "driver": driver, "cuts": cuts, "nsteps": rng.randint(1, 6),
             "switches": switches, "strategy_call": rng.choice(["plain", "plain", "level_kw", "level_pos"])}
@@ -87,7 +87,10 @@ def _with_faults(prog, faults, switches=()):
     import copy
     p = copy.deepcopy(prog)
     for tag, strat in switches:
-        p["handlers"].setdefault(tag, []).insert(0, ["strategy", strat])
+        if strat.startswith("bad:"):
+            p["handlers"].setdefault(tag, []).insert(0, ["badstrategy", strat[4:], tag.endswith(("1", "3", "5", "7", "9"))])
+        else:
+            p["handlers"].setdefault(tag, []).insert(0, ["strategy", strat])
     for tag, pos, *rest in faults:
         kind = rest[0] if rest else "exc"
         acts = p["handlers"].setdefault(tag, [])
@@ -192,6 +195,9 @@ def run_case(case, ctx):
         if not compare_traces(ctx, h.trace(), full, where, what="whole-run"):
             return
         if not check_clock_monotone(h, ctx, where):
+            return
+        if h.bad_strategy_accepted:
+            ctx.viol("non-existent-error-strategy-accepted", {**where, "calls": h.bad_strategy_accepted[:3]})
             return
         ctx.nontrivial = ref.faults > 0 and pending_at_fault[0]
         ctx.seen("strategy_driver", f"{case['strategy']}:{case['driver']}")
